@@ -26,7 +26,7 @@ import (
 func init() { commands["tree"] = treeMain }
 
 var treeKeys = []string{"a", "b", "c", "d"}
-var treeFilters = []string{"null", "all", "lx1", "lx0", "fnx0", "nlx1", "nsa", "anx0", "anx1", "nsp1", "nsp2"}
+var treeFilters = []string{"null", "all", "lx1", "lx0", "fnx0", "nlx1", "nsa", "anx0", "anx1", "nsp1", "nsp2", "sel0", "selall"}
 
 type tnode struct {
 	id      int
@@ -448,6 +448,14 @@ func runTreeScenario(w *ndWriter, seed int64, variant string, nEvents int, idx i
 	// some nodes before the controller is ready
 	for i := 0; i < rng.Intn(4); i++ {
 		newNode()
+	}
+	if gated && (variant == "close" || variant == "monitor" || variant == "refilter") && rng.Intn(6) == 0 {
+		// the root is closed before its first list completes: nothing ever becomes ready, everything must still stop
+		s.randomRefilter(rng, 50)
+		earlyClose = true
+		gated = false
+		tr.LogRaw("drv", "call.close", fmt.Sprintf(`"node":0,"stage":%q,"how":"close-before-ready"`, root.stage))
+		go ctl.Close()
 	}
 	if gated {
 		// things that may happen before the first list completes
